@@ -388,7 +388,23 @@ def gen_c08(seed, tier):
             if fk == "tool":
                 kw["tf"] = [{"op": "verify", "ord": r.pick([0, 1]), "mode": r.pick(modes_for("verify")),
                              "variant": r.randrange(1000)}]
-        f = g.login(sp, idp, p, resp_kw=kw)
+        if r.chance(0.25):
+            # attribute query over the SOAP back channel (attribute authority role of the IdP node)
+            f = g.new_flow()
+            g.ev("mkreq", f=f, sp=sp["name"], idp=idp["name"], kind="attribute_query", rb="soap", sign=r.chance(0.5))
+            g.tick()
+            g.ev("req", f=f)
+            g.tick()
+            pa = {"identity": p["identity"], "sign_response": r.chance(0.5), "sign_assertion": r.chance(0.5)}
+            if pa["sign_response"] or pa["sign_assertion"]:
+                pa["sigalg"] = r.pick(SIGALGS)
+                pa["digalg"] = r.pick(DIGALGS)
+            g.ev("aq_answer", f=f, p=pa, sub=g.sub())
+            g.tick()
+            g.ev("resp", f=f, r=0, sub=g.sub(), **kw)
+            g.tick()
+        else:
+            f = g.login(sp, idp, p, resp_kw=kw)
         if faulty:
             if fk == "dup":
                 g.ev("resp", f=f, r=0, dup=True, sub=g.sub())
@@ -417,7 +433,8 @@ def gen_c05(seed, tier):
             rx = g.rl.pick([r"^https://[a-z0-9]+\.%s\.sim\.example/acs/" % tenant,
                             r"\.%s\.sim\.example/acs/post$" % tenant])
         sps.append(g.add_sp(i, tenant=tenant, allow_unsolicited=g.rl.chance(0.45), dest_regex=rx,
-                            wrs=g.rl.chance(0.5), acs2=g.rl.chance(0.3), enc_keys=[6 + 2 * i]))
+                            wrs=g.rl.chance(0.5), acs2=g.rl.chance(0.3), enc_keys=[6 + 2 * i],
+                            no_redirect_acs=g.rl.chance(0.35)))
     g.draw_skews(choices=(0, 0, 1, -1))
     clean = (seed % 4 == 0)
     g.knobs = {"class": "clean" if clean else "faulty"}
@@ -485,7 +502,9 @@ def gen_c05(seed, tier):
             if r.chance(0.5):
                 g.ev("resp", f=f, r=0, conv=conv, sub=g.sub())
         elif mode == "other-endpoint":
-            g.ev("resp", f=f, r=0, via=r.pick(["acs_redirect", "acs_post2"]), conv=conv, dup=True, sub=g.sub())
+            via = r.pick(["acs_redirect", "acs_redirect", "acs_post2"])
+            g.ev("resp", f=f, r=0, via=via, conv=conv, dup=True, sub=g.sub(),
+                 reencode=(via == "acs_redirect" and r.chance(0.8)))
         elif mode == "restart":
             g.ev("restart", node=sp["name"])
             g.tick(0.5)
